@@ -19,6 +19,11 @@ def plan(prop, tier):
     return flavours, shards
 
 
+# comment text is arbitrary bytes: UTF-8 sequences (among them the Unicode line and paragraph
+# separators and NEL, which are not line ends here), other control characters, invalid bytes
+UTF8 = [b'\xe2\x80\xa8', b'\xe2\x80\xa9', b'\xc2\x85', b'\xc3\xa9', b'\xf0\x9f\x98\x80', b'\xff', b'\x0b', b'\x0c', b'\x7f', b'\xe2\x80', b'\xef\xbb\xbf']
+
+
 def separator(rng, final=False):
     r = rng.random()
     if r < 0.01:
@@ -29,12 +34,12 @@ def separator(rng, final=False):
     if r < 0.65:
         return b''.join(rng.choice([b' ', b'\t', b'\r', b'\n']) for _ in range(rng.choice([1, 1, 2, 4])))
     if r < 0.85:
-        body = b''.join(rng.choice([b'a', b' ', b'*', b'/', b'"', b'\\', b'* /', b'//', b'/*', b'\n', b'{', b'"x"', b'\\"']) for _ in range(rng.randrange(0, 6)))
+        body = b''.join(rng.choice([b'a', b' ', b'*', b'/', b'"', b'\\', b'* /', b'//', b'/*', b'\n', b'{', b'"x"', b'\\"'] + UTF8) for _ in range(rng.randrange(0, 6)))
         body = body.replace(b'*/', b'* /')
         if body.endswith(b'*'):
             body += b' '
         return b'/*' + body + b'*/'
-    body = b''.join(rng.choice([b'a', b' ', b'*', b'/', b'"', b'\\', b'*/', b'/*', b'\t', b'}', b'"x', b'\\"']) for _ in range(rng.randrange(0, 6)))
+    body = b''.join(rng.choice([b'a', b' ', b'*', b'/', b'"', b'\\', b'*/', b'/*', b'\t', b'}', b'"x', b'\\"'] + UTF8) for _ in range(rng.randrange(0, 6)))
     if final and rng.random() < 0.5:
         return b'//' + body           # unterminated last line
     return b'//' + body + b'\n'
